@@ -889,6 +889,11 @@ func (p *InlineParser) parseEndBracket(state *inlineState, start int) (end int) 
 			End:   label.span.End,
 		}
 		p.finishLink(state, kind, openDelimIndex)
+		// The label may end on a later line than it starts on:
+		// continue in the run of text that holds its closing bracket.
+		if i := nodeIndexForPosition(state.unparsed[state.unparsedPos:], linkNode.span.End-1); i >= 0 {
+			state.unparsedPos += i
+		}
 		return linkNode.span.End
 	default:
 		// Shortcut reference link.
